@@ -5,3 +5,4 @@ import contracts.nast_flow  # noqa  (which region decorators / defaults / bases 
 INFO = {'not_decided': ['class-body reads of names the class itself binds (excluded by the property)'],
         'stated_lemmas': ['induction on the depth of the scope chain: each scope kind computes its step of the resolution rule from its parent\'s `names`'],
         'trusted': []}
+import contracts.scopes_bounded  # noqa
